@@ -28,6 +28,7 @@ func init() {
 			"C29.R5 pairing: the annotation reference removed from a page is the reference of the widget whose /P named the page",
 			"C29.R7 dominance: on the no-signatures edge a nil-error exit is behind conf.Cmd != REMOVESIGNATURES",
 			"C29.R8 shape: the widget reference is removed from a page's /Annots at every position (the loop over the array is not left at the first match)",
+			"C29.R9 TABLE: AllowRemoveSignatures names MERGEAPPEND, MERGECREATE, MERGECREATEZIP and OPTIMIZE",
 			"C29.R3 coverage: RemoveAllSignatures deletes Perms and DSS on every path, SigFlags/AcroForm when fields were dropped",
 		},
 		Assumptions: []string{"the validator's catalog table (validate.validateRootObject) lists the ISO 32000 catalog keys"},
@@ -77,6 +78,8 @@ func runC29(c *Ctx) {
 	checkExplicitRemoveFailsWhenEmpty(c)
 	r.MinInst["C29.R8"] = 1
 	checkAnnotRemovalComplete(c)
+	r.MinInst["C29.R9"] = 1
+	checkRemoveSignaturesModes(c)
 
 	// ---------- R1
 	if fn := p.Func("pkg/api.ReadAndValidate"); fn == nil {
@@ -902,5 +905,48 @@ func checkAnnotRemovalComplete(c *Ctx) {
 	}
 	if n == 0 {
 		r.Bad("C29.R8", fid, "loop over /Annots", p.Pos(fn.Pos()), "UNDECIDED: no loop that compares array elements with the widget's reference")
+	}
+}
+
+// ---------------- C29.R9 (round 4 seed C29-H): the option applies to every command the gate names ----------------
+
+// checkRemoveSignaturesModes: the option conf.RemoveSignatures removes signatures as part of optimize and of the three
+// merge commands; the gate in ReadAndValidate asks CommandMode.AllowRemoveSignatures. The set of command modes that
+// predicate compares with must be {MERGEAPPEND, MERGECREATE, MERGECREATEZIP, OPTIMIZE}: a missing mode makes that command
+// skip the removal silently — the signed inputs' widgets and values are written to the output with --rmsig given.
+func checkRemoveSignaturesModes(c *Ctx) {
+	p, r := c.P, c.R
+	const fid = "pkg/pdfcpu/model.(CommandMode).AllowRemoveSignatures"
+	fn := p.Func(fid)
+	if fn == nil {
+		r.Bad("C29.R9", fid, "anchor", "", "UNRESOLVED-ANCHOR")
+		return
+	}
+	got := map[string]bool{}
+	eachInstr(fn, func(_ *ssa.BasicBlock, _ int, i ssa.Instruction) {
+		switch x := i.(type) {
+		case *ssa.BinOp:
+			if x.Op == token.EQL {
+				for _, v := range []ssa.Value{x.X, x.Y} {
+					if cst, ok := v.(*ssa.Const); ok {
+						if name := commandModeName(p, cst); name != "" {
+							got[name] = true
+						}
+					}
+				}
+			}
+		}
+	})
+	want := []string{"MERGEAPPEND", "MERGECREATE", "MERGECREATEZIP", "OPTIMIZE"}
+	var miss []string
+	for _, w := range want {
+		if !got[w] {
+			miss = append(miss, w)
+		}
+	}
+	if len(miss) == 0 {
+		r.OK("C29.R9", fid, "modes of the option", p.Pos(fn.Pos()), "compares with "+strings.Join(want, ", "), true)
+	} else {
+		r.Bad("C29.R9", fid, "modes of the option", p.Pos(fn.Pos()), "the predicate no longer names "+strings.Join(miss, ", ")+": with the RemoveSignatures option that command skips the removal without a word and writes the signature fields, widgets and values of its signed inputs")
 	}
 }
